@@ -319,6 +319,7 @@ def r131(ctx, rep, f, ev, cg, reach, O):
         ok = not any(c in ADAPT for c in chain)
         fe = [(bb, t) for bb, t, cal, c in b.calls() if cal and cal.endswith("::for_each")]
         direct = [(bb, t) for bb, t, cal, c in b.calls() if cal == dec]
+        nxt = []
         if fe:
             # closure form: data().iter().for_each(|b| self.decode(*b))
             ok = ok and len(fe) == 1 and not direct
@@ -352,6 +353,12 @@ def r131(ctx, rep, f, ev, cg, reach, O):
                     ok = ok and b.all_paths_pass(some_t[0], [direct[0][0]], to=[nxt[0][0]])
                 if not ok:
                     chain.append("loop arg: %s from %s" % (arg, src[:80]))
+        # the feed is unconditional: every path through analyze_alpide_frame passes it (no shortcut decides from a few
+        # bytes that the rest of the lane data need not be decoded)
+        feed = fe[0][0] if fe else (nxt[0][0] if not fe and nxt else None)
+        uncond = feed is not None and b.all_paths_pass(0, [feed], to=b.return_blocks())
+        rep.check(uncond, "R13.1", "R13.1|all-bytes-unconditional", "the lane data is fed to the decoder on every path through analyze_alpide_frame", WL,
+                  "the decode loop of analyze_alpide_frame is bypassed on some path: lane data can be accepted without being decoded byte by byte")
         rep.check(ok, "R13.1", "R13.1|all-bytes-in-order", "every byte of the lane data is decoded once, in order (data().iter().for_each(decode))", WL,
                   "analyze_alpide_frame does not feed every lane byte in order to decode(): %s" % chain)
         # checks are run unless the lane is fatal
